@@ -196,4 +196,102 @@ theorem callNodesAux_complete (tab : Table) (fuel : Nat) (stack vis res r : List
         · exact Or.inl (List.mem_cons_self ..)
         · exact Or.inr (List.mem_append.2 (Or.inr h''))
 
+/-! ### the stored relation is exactly the declared one -/
+
+/-- every forward set holds exactly what the table declares for the entities that have a node -/
+def LinksExact (tab : Table) (nd : NodeData) : Prop :=
+  ∀ a r t, (⟨a, r, t⟩ : Link) ∈ nd.fwd ↔ a ∈ nd.created ∧ (r, t) ∈ targets tab a
+
+theorem linksExact_empty (tab : Table) : LinksExact tab {} := by intro a r t; simp
+
+theorem foldl_link_fwd (ts : List (Rel × Node)) (e : Node) (nd : NodeData) (x : Link) :
+    x ∈ (ts.foldl (fun nd rt => link nd e rt) nd).fwd ↔ x ∈ nd.fwd ∨ ∃ rt ∈ ts, x = ⟨e, rt.1, rt.2⟩ := by
+  induction ts generalizing nd with
+  | nil => simp
+  | cons t r ih =>
+    rw [List.foldl_cons, ih]
+    simp only [link, mem_insertLink, List.mem_cons]
+    constructor
+    · rintro ((rfl | h) | ⟨rt, hrt, rfl⟩)
+      · exact Or.inr ⟨t, Or.inl rfl, rfl⟩
+      · exact Or.inl h
+      · exact Or.inr ⟨rt, Or.inr hrt, rfl⟩
+    · rintro (h | ⟨rt, (rfl | hrt), rfl⟩)
+      · exact Or.inl (Or.inr h)
+      · exact Or.inl (Or.inl rfl)
+      · exact Or.inr ⟨rt, hrt, rfl⟩
+
+/-- Node creation stores, for every node it makes, exactly the links `targets` lists — no link is
+    lost and none is invented, whatever the order of creation and however the relation loops. -/
+theorem create_exact (tab : Table) (fuel : Nat) (stack : List Node) (nd nd' : NodeData)
+    (h : LinksExact tab nd) (hc : create tab fuel stack nd = some nd') : LinksExact tab nd' := by
+  fun_induction create tab fuel stack nd
+  case case1 => simp at hc; exact hc ▸ h
+  case case2 => simp at hc
+  case case3 ih => exact ih h hc
+  case case4 f e rest nd hnot ts ih =>
+    apply ih _ hc
+    intro a r t
+    rw [foldl_link_fwd, foldl_link_created]
+    simp only [List.mem_append, List.mem_singleton]
+    rw [h a r t]
+    constructor
+    · rintro (⟨ha, ht⟩ | ⟨rt, hrt, heq⟩)
+      · exact ⟨Or.inl ha, ht⟩
+      · simp only [Link.mk.injEq] at heq
+        obtain ⟨rfl, rfl, rfl⟩ := heq
+        exact ⟨Or.inr rfl, hrt⟩
+    · rintro ⟨ha | rfl, ht⟩
+      · exact Or.inl ⟨ha, ht⟩
+      · exact Or.inr ⟨(r, t), ht, rfl⟩
+
+/-- every entity handed to `register` / `get_node` has a node afterwards (and nodes are never removed) -/
+theorem create_created (tab : Table) (fuel : Nat) (stack : List Node) (nd nd' : NodeData)
+    (hc : create tab fuel stack nd = some nd') :
+    (∀ x ∈ nd.created, x ∈ nd'.created) ∧ ∀ x ∈ stack, x ∈ nd'.created := by
+  fun_induction create tab fuel stack nd
+  case case1 => simp at hc; subst hc; simp
+  case case2 => simp at hc
+  case case3 f e rest nd hin ih =>
+    obtain ⟨h1, h2⟩ := ih hc
+    refine ⟨h1, fun x hx => ?_⟩
+    rcases List.mem_cons.1 hx with rfl | hx
+    · exact h1 _ (by simpa using hin)
+    · exact h2 x hx
+  case case4 f e rest nd hnot ts ih =>
+    obtain ⟨h1, h2⟩ := ih hc
+    rw [foldl_link_created] at h1
+    refine ⟨fun x hx => h1 x (List.mem_append.2 (Or.inl hx)), fun x hx => ?_⟩
+    rcases List.mem_cons.1 hx with rfl | hx
+    · exact h1 _ (by simp)
+    · exact h2 x (List.mem_append.2 (Or.inr hx))
+
+/-! ### the decision table of the interface links -/
+
+theorem ruleOfIn_cases (rules : List C13Gen.IfaceRule) (c : Nat) :
+    ruleOfIn rules c ∈ rules ∨ ruleOfIn rules c = { name := "" } := by
+  unfold ruleOfIn
+  rw [List.getD_eq_getElem?_getD]
+  cases h : rules[c]? with
+  | none => right; simp
+  | some r => left; simpa using List.mem_of_getElem? h
+
+/-- a property of every row (and of the default row) holds for the row of every class index -/
+theorem ruleOfIn_all (rules : List C13Gen.IfaceRule) (P : C13Gen.IfaceRule → Prop)
+    (hall : ∀ r ∈ rules, P r) (hdef : P { name := "" }) (c : Nat) : P (ruleOfIn rules c) := by
+  rcases ruleOfIn_cases rules c with h | h
+  · exact hall _ h
+  · rw [h]; exact hdef
+
+theorem mem_targets_iface {tab : Table} {i m : Node}
+    (hk : (ent tab i).kind = .proc) (hi : (ent tab i).isIface = true) :
+    (Rel.iface, m) ∈ targets tab i ↔ m ∈ ifaceTargets C13Gen.ifaceRules tab i := by
+  simp only [targets, hk, hi, if_true, List.mem_append, List.mem_map]
+  constructor
+  · rintro ((⟨u, _, h⟩ | ⟨u, _, h⟩) | ⟨u, hu, h⟩)
+    · cases h
+    · cases h
+    · cases h; exact hu
+  · intro h; exact Or.inr ⟨m, h, rfl⟩
+
 end Ford.Graph
